@@ -9,6 +9,7 @@ import (
 	"strings"
 
 	apiv1 "k8s.io/api/core/v1"
+	discoveryV1 "k8s.io/api/discovery/v1"
 	"sigs.k8s.io/controller-runtime/pkg/client"
 	gatewayv1 "sigs.k8s.io/gateway-api/apis/v1"
 	"sigs.k8s.io/gateway-api/apis/v1alpha2"
@@ -514,7 +515,34 @@ func Generate(r *rng.R, mode int) *Case {
 		for i := 0; i < nt; i++ {
 			ns := rng.Pick(r, nss)
 			s := rng.Pick(r, svcPool)
-			ensureSvc(ns, s)
+			// endpoint shapes of the passthrough backend: ready / no slice at all (ensureSvc), or slices that match the
+			// port but hold only not-ready or terminating endpoints (the resolver returns an EMPTY list without error),
+			// or slices of another port only
+			switch shape := r.Intn(6); shape {
+			case 3, 4, 5:
+				s = []string{"tlsbe-notready", "tlsbe-terminating", "tlsbe-otherport"}[shape-3]
+				if !haveSvc[ns+"/"+s] {
+					haveSvc[ns+"/"+s] = true
+					c.Objs = append(c.Objs, p.Service(ns, s, 80))
+					es := p.EndpointSlice(ns, s, "s0", []int32{80}, "10.9.0.1", "10.9.0.2")
+					switch shape {
+					case 3:
+						for k := range es.Endpoints {
+							es.Endpoints[k].Conditions.Ready = ptr(false)
+						}
+					case 4:
+						for k := range es.Endpoints {
+							es.Endpoints[k].Conditions = discoveryV1.EndpointConditions{Ready: ptr(false), Serving: ptr(true), Terminating: ptr(true)}
+						}
+					case 5:
+						es = p.EndpointSlice(ns, s, "s0", []int32{81}, "10.9.0.3")
+					}
+					c.Objs = append(c.Objs, es)
+				}
+				c.tag("tlsroute-backend-" + s[len("tlsbe-"):])
+			default:
+				ensureSvc(ns, s)
+			}
 			h := rng.Pick(r, hostPool)
 			if strings.HasPrefix(h, "*") {
 				h = "cafe.example.com"
@@ -642,6 +670,37 @@ func Generate(r *rng.R, mode int) *Case {
 		op.Spec.Tracing = tr
 		c.Objs = append(c.Objs, op)
 		c.tag("observability-policy")
+	}
+	// policy pairs/triples with DISJOINT fields in one section and an OVERLAPPING field in the other (conflict detection must
+	// look at both sections): body disjoint + keepAlive overlapping, keepAlive disjoint + body overlapping, keepAlive.timeout
+	// sub-fields (server / server+header), a third policy that overlaps only in keepAlive
+	if r.Chance(1, 4) {
+		kind, tns, tname := "Gateway", gwNS, gwName
+		if len(routes) > 0 && r.Chance(2, 3) {
+			t := rng.Pick(r, routes)
+			kind, tns, tname = t.kind, t.ns, t.name
+		}
+		dur := func(s string) *ngfAPI.Duration { return ptr(ngfAPI.Duration(s)) }
+		shapes := [][]ngfAPI.ClientSettingsPolicySpec{
+			{{Body: &ngfAPI.ClientBody{MaxSize: ptr(ngfAPI.Size("1m"))}, KeepAlive: &ngfAPI.ClientKeepAlive{Requests: ptr(int32(100))}},
+				{Body: &ngfAPI.ClientBody{Timeout: dur("30s")}, KeepAlive: &ngfAPI.ClientKeepAlive{Requests: ptr(int32(200))}}},
+			{{Body: &ngfAPI.ClientBody{Timeout: dur("10s")}, KeepAlive: &ngfAPI.ClientKeepAlive{Time: dur("1h")}},
+				{Body: &ngfAPI.ClientBody{MaxSize: ptr(ngfAPI.Size("2m"))}, KeepAlive: &ngfAPI.ClientKeepAlive{Time: dur("2h")}}},
+			{{Body: &ngfAPI.ClientBody{MaxSize: ptr(ngfAPI.Size("1m"))}, KeepAlive: &ngfAPI.ClientKeepAlive{Timeout: &ngfAPI.ClientKeepAliveTimeout{Server: dur("75s")}}},
+				{Body: &ngfAPI.ClientBody{Timeout: dur("30s")}, KeepAlive: &ngfAPI.ClientKeepAlive{Timeout: &ngfAPI.ClientKeepAliveTimeout{Server: dur("60s"), Header: dur("20s")}}}},
+			{{Body: &ngfAPI.ClientBody{MaxSize: ptr(ngfAPI.Size("1m"))}, KeepAlive: &ngfAPI.ClientKeepAlive{Time: dur("1h")}},
+				{Body: &ngfAPI.ClientBody{MaxSize: ptr(ngfAPI.Size("2m"))}, KeepAlive: &ngfAPI.ClientKeepAlive{Requests: ptr(int32(7))}}},
+			{{Body: &ngfAPI.ClientBody{MaxSize: ptr(ngfAPI.Size("1m"))}}, {KeepAlive: &ngfAPI.ClientKeepAlive{Time: dur("1h")}},
+				{Body: &ngfAPI.ClientBody{Timeout: dur("5s")}, KeepAlive: &ngfAPI.ClientKeepAlive{Time: dur("3h")}}},
+		}
+		si := r.Intn(len(shapes))
+		for i, sp := range shapes[si] {
+			csp := &ngfAPI.ClientSettingsPolicy{ObjectMeta: p.Meta(tns, fmt.Sprintf("shape%d-%d", si, i), next())}
+			csp.Spec = sp
+			csp.Spec.TargetRef = v1alpha2.LocalPolicyTargetReference{Group: "gateway.networking.k8s.io", Kind: gatewayv1.Kind(kind), Name: gatewayv1.ObjectName(tname)}
+			c.Objs = append(c.Objs, csp)
+		}
+		c.tag(fmt.Sprintf("csp-shape-%d-on-%s", si, strings.ToLower(kind)))
 	}
 	// policy piles: 3-5 policies of ONE kind on ONE target with overlapping fields. Conflict resolution must leave
 	// at most one policy per single-valued directive in every scope (server for gateway targets, location for routes).
